@@ -311,6 +311,156 @@ async fn run_case(sock: PathBuf, ops: Vec<String>) -> Vec<String> {
                         // let the server finish the session ends before the next step
                         tokio::time::sleep(Duration::from_millis(30)).await;
                     }
+                    "storm" => {
+                        // storm <subs> <writers> <writes> <late> <k|p>: every connection is a task of its own on the multi-threaded
+                        // runtime. <subs> subscribers (live only) are acknowledged first; then <writers> writers, released at a
+                        // barrier, each PIPELINE <writes> sets (no waiting for answers) -- on one shared key (k) or on a key each
+                        // under one pattern (p) --, while <late> more subscribers (with snapshot) join in the middle of the traffic.
+                        // What every connection received is printed raw, in arrival order; nothing is judged here.
+                        let nsubs: usize = t[1].parse().expect("subs");
+                        let nwr: usize = t[2].parse().expect("writers");
+                        let nwrites: usize = t[3].parse().expect("writes");
+                        let nlate: usize = t[4].parse().expect("late");
+                        let shared = t[5] == "k";
+                        let total = nwr * nwrites;
+                        let sub_line = move |live: bool| if shared {
+                            json!({"subscribe": {"transactionId": 7, "key": "st/k", "unique": false, "liveOnly": live}}).to_string()
+                        } else {
+                            json!({"pSubscribe": {"transactionId": 7, "requestPattern": "st/#", "unique": false, "liveOnly": live}}).to_string()
+                        };
+                        // one subscriber: tokens in arrival order: A (ack 7), E<code> (err 7), value strings of events, D for a deletion
+                        async fn subscriber(sock: PathBuf, line: String, ready: Option<std::sync::Arc<tokio::sync::Barrier>>, delay_us: u64, total: usize, late: bool, done: std::sync::Arc<std::sync::atomic::AtomicBool>, go: Option<std::sync::Arc<tokio::sync::Barrier>>) -> Vec<String> {
+                            let mut seen: Vec<String> = vec![];
+                            let Ok(stream) = UnixStream::connect(&sock).await else { return vec!["noconnect".into()] };
+                            let (r, mut w) = stream.into_split();
+                            let mut rd = BufReader::new(r).lines();
+                            let Ok(Ok(Some(_welcome))) = tokio::time::timeout(Duration::from_secs(20), rd.next_line()).await else { return vec!["nowelcome".into()] };
+                            if let Some(g) = &go { g.wait().await; }
+                            if delay_us > 0 { tokio::time::sleep(Duration::from_micros(delay_us)).await; }
+                            if w.write_all(format!("{line}\n").as_bytes()).await.is_err() { return vec!["nowrite".into()] }
+                            w.flush().await.ok();
+                            let mut acked = false;
+                            let started = tokio::time::Instant::now();
+                            let mut events = 0usize;
+                            loop {
+                                // a late subscriber cannot know how many events it will get: it stops when everybody else is done and
+                                // its socket has been quiet for a while
+                                let wait = if late { Duration::from_millis(400) } else { Duration::from_secs(20) };
+                                let l = match tokio::time::timeout(wait, rd.next_line()).await {
+                                    Ok(Ok(Some(l))) => l,
+                                    Ok(_) => { seen.push("closed".into()); break; }
+                                    Err(_) => {
+                                        if late {
+                                            if acked && done.load(std::sync::atomic::Ordering::SeqCst) { break; }
+                                            if started.elapsed() > Duration::from_secs(40) { seen.push("timeout".into()); break; }
+                                            continue;
+                                        }
+                                        seen.push("timeout".into()); break;
+                                    }
+                                };
+                                let v: Value = serde_json::from_str(&l).unwrap_or(Value::Null);
+                                if let Some(a) = v.get("ack") {
+                                    if a["transactionId"] == json!(7) {
+                                        seen.push("A".into());
+                                        if !acked { acked = true; if let Some(b) = &ready { b.wait().await; } }
+                                    }
+                                } else if let Some(e) = v.get("err") {
+                                    seen.push(format!("E{}", e["errorCode"]));
+                                    if let Some(b) = &ready { if !acked { b.wait().await; } }
+                                    break;
+                                } else if let Some(st) = v.get("state") {
+                                    if let Some(x) = st.get("value") { seen.push(x.as_str().unwrap_or("?").to_owned()); events += 1; }
+                                    else { seen.push("D".into()); }
+                                } else if let Some(ps) = v.get("pState") {
+                                    if let Some(Value::Array(kvs)) = ps.get("keyValuePairs") {
+                                        // a snapshot carries several pairs at once: kept together, sorted
+                                        let mut vals: Vec<String> = kvs.iter().map(|kv| kv["value"].as_str().unwrap_or("?").to_owned()).collect();
+                                        vals.sort();
+                                        if vals.len() == 1 { seen.push(vals[0].clone()); } else { seen.push(format!("[{}]", vals.join("+"))); }
+                                        events += vals.len();
+                                    } else { seen.push("D".into()); }
+                                } else {
+                                    seen.push(format!("?{}", hex::encode(&l)));
+                                }
+                                if !late && events >= total { break; }
+                            }
+                            seen
+                        }
+                        let done = std::sync::Arc::new(std::sync::atomic::AtomicBool::new(false));
+                        let ready = std::sync::Arc::new(tokio::sync::Barrier::new(nsubs + 1));
+                        let mut subs = vec![];
+                        for _ in 0..nsubs {
+                            subs.push(tokio::spawn(subscriber(sock.clone(), sub_line(true), Some(ready.clone()), 0, total, false, done.clone(), None)));
+                        }
+                        ready.wait().await;
+                        let go = std::sync::Arc::new(tokio::sync::Barrier::new(nwr + nlate));
+                        let mut writers = vec![];
+                        for j in 0..nwr {
+                            let sock = sock.clone();
+                            let go = go.clone();
+                            writers.push(tokio::spawn(async move {
+                                let mut acks: Vec<String> = vec![];
+                                let Ok(stream) = UnixStream::connect(&sock).await else { return vec!["noconnect".to_owned()] };
+                                let (r, mut w) = stream.into_split();
+                                let mut rd = BufReader::new(r).lines();
+                                let Ok(Ok(Some(_welcome))) = tokio::time::timeout(Duration::from_secs(20), rd.next_line()).await else { return vec!["nowelcome".to_owned()] };
+                                let mut burst = String::new();
+                                for i in 0..nwrites {
+                                    let key = if shared { "st/k".to_owned() } else { format!("st/w{j}") };
+                                    burst.push_str(&json!({"set": {"transactionId": i + 1, "key": key, "value": format!("{j}.{i}")}}).to_string());
+                                    burst.push('\n');
+                                }
+                                go.wait().await;
+                                if w.write_all(burst.as_bytes()).await.is_err() { return vec!["nowrite".to_owned()] }
+                                w.flush().await.ok();
+                                while acks.len() < nwrites {
+                                    match tokio::time::timeout(Duration::from_secs(20), rd.next_line()).await {
+                                        Ok(Ok(Some(l))) => {
+                                            let v: Value = serde_json::from_str(&l).unwrap_or(Value::Null);
+                                            if let Some(a) = v.get("ack") { acks.push(a["transactionId"].to_string()); }
+                                            else if let Some(e) = v.get("err") { acks.push(format!("E{}@{}", e["errorCode"], e["transactionId"])); }
+                                            else { acks.push(format!("?{}", hex::encode(&l))); }
+                                        }
+                                        Ok(_) => { acks.push("closed".to_owned()); break; }
+                                        Err(_) => { acks.push("timeout".to_owned()); break; }
+                                    }
+                                }
+                                acks
+                            }));
+                        }
+                        let mut lates = vec![];
+                        for k in 0..nlate {
+                            let go = go.clone();
+                            let sock = sock.clone();
+                            let line = sub_line(false);
+                            let done = done.clone();
+                            lates.push(tokio::spawn(async move {
+                                subscriber(sock, line, None, 300 * (k as u64 + 1), total, true, done, Some(go)).await
+                            }));
+                        }
+                        let mut parts: Vec<String> = vec![];
+                        for (j, tk) in writers.into_iter().enumerate() { parts.push(format!("W{j}={}", tk.await.unwrap_or_else(|_| vec!["died".to_owned()]).join(","))); }
+                        for (k, tk) in subs.into_iter().enumerate() { parts.push(format!("S{k}={}", tk.await.unwrap_or_else(|_| vec!["died".to_owned()]).join(","))); }
+                        done.store(true, std::sync::atomic::Ordering::SeqCst);
+                        for (k, tk) in lates.into_iter().enumerate() { parts.push(format!("L{k}={}", tk.await.unwrap_or_else(|_| vec!["died".to_owned()]).join(","))); }
+                        // a witness reads the final state
+                        if let Ok(stream) = UnixStream::connect(&sock).await {
+                            let (r, mut w) = stream.into_split();
+                            let mut rd = BufReader::new(r).lines();
+                            let _ = tokio::time::timeout(Duration::from_secs(20), rd.next_line()).await;
+                            let q = json!({"pGet": {"transactionId": 1, "requestPattern": "st/#"}}).to_string();
+                            w.write_all(format!("{q}\n").as_bytes()).await.ok();
+                            w.flush().await.ok();
+                            if let Ok(Ok(Some(l))) = tokio::time::timeout(Duration::from_secs(20), rd.next_line()).await {
+                                let v: Value = serde_json::from_str(&l).unwrap_or(Value::Null);
+                                let mut kv: Vec<String> = v["pState"]["keyValuePairs"].as_array().map(|a| a.iter().map(|x| format!("{}:{}", x["key"].as_str().unwrap_or("?"), x["value"].as_str().unwrap_or("?"))).collect()).unwrap_or_default();
+                                kv.sort();
+                                parts.push(format!("G={}", kv.join(",")));
+                            }
+                        }
+                        out.push(format!("storm:{}", parts.join(";")));
+                        tokio::time::sleep(Duration::from_millis(30)).await;
+                    }
                     other => panic!("unknown op {other}"),
                 }
                 // which answer the protocol owes: every request with a transaction id, except a waiting acquireLock
